@@ -45,7 +45,7 @@ def load_known():
     return json.load(open(p))
 
 
-def match_known(known, prop, cid, kind, label, inp=None):
+def match_known(known, prop, cid, kind, label, inp=None, observed=None):
     import re as _re
     for k in known:
         if k.get('status') != 'known' or k.get('property') != prop:
@@ -57,6 +57,8 @@ def match_known(known, prop, cid, kind, label, inp=None):
         if k.get('label_contains') and k['label_contains'] not in label:
             continue
         if k.get('input_regex') and (inp is None or not _re.search(k['input_regex'], inp)):
+            continue
+        if k.get('observed_regex') and (observed is None or not _re.search(k['observed_regex'], observed, _re.S)):
             continue
         return k
     return None
@@ -350,7 +352,8 @@ def run_check(prop, tier, seed):
         reported = set()
         n_known = 0
         for v in b.get('violations', []):
-            k = match_known(known, prop, b.get('contract', ''), 'bounded', v.get('label', ''), str(v.get('input', '')))
+            k = match_known(known, prop, b.get('contract', ''), 'bounded', v.get('label', ''), str(v.get('input', '')),
+                            str(v.get('observed', '')))
             if k is not None:
                 n_known += 1
                 line = 'KNOWN-FINDING: property=%s %s' % (prop, k['what'])
@@ -426,6 +429,13 @@ def run_check(prop, tier, seed):
     os.makedirs(EVIDENCE_DIR, exist_ok=True)
     with open(os.path.join(EVIDENCE_DIR, prop + '.json'), 'w') as f:
         json.dump(ev, f, indent=1, default=repr)
+    for k_ in known:
+        # every listed finding is announced on every run; findings that depend on hash seed / heap layout (or whose
+        # stand-in only runs in the other tier) may not have been observed this time
+        if k_.get('status') == 'known' and k_.get('property') == prop:
+            line = 'KNOWN-FINDING: property=%s %s' % (prop, k_['what'])
+            if line not in known_lines:
+                known_lines.append(line + ' [not observed in this run]')
     for line in known_lines:
         print(line)
     print('%s tier=%s functions=%d obligations=%d discharged=%d violations=%d undecided=%d wall=%.1fs'
